@@ -106,8 +106,23 @@ CbOk(m, want, cb) ==
     /\ cb.kind = want.kind
     /\ HdrEq(cb.hdr, SeenHdr(m.sc, f))
     /\ want.kind = "intermediate" =>
-          \/ (cb.pay = f.pay /\ cb.payErr \in {"nil", "eof"})
+          \/ (m.sc.cbRead = 0 /\ cb.pay = f.pay /\ cb.payErr \in {"nil", "eof"})
+          \* a callback that takes one Read of at most cbRead bytes (or nothing) sees a prefix of the payload
+          \/ (m.sc.cbRead # 0 /\ Len(cb.pay) <= (IF m.sc.cbRead > 0 THEN m.sc.cbRead ELSE 0) /\ Len(cb.pay) <= Len(f.pay)
+                /\ cb.pay = SubSeq(f.pay, 1, Len(cb.pay)) /\ cb.payErr \in {"nil", "eof"})
           \/ (cb.payErr \notin {"nil", "eof"} /\ m.sc.cut >= 0 /\ m.sc.cut < f.pe)   \* cut inside: must be visible
+    \* bytes the continuation callback took out of its reader are the first bytes of that frame's payload
+    /\ want.kind = "continuation" =>
+          /\ cb.payErr \in {"nil", "refused"}
+          /\ Len(cb.pay) <= m.sc.contRead /\ Len(cb.pay) <= Len(f.pay)
+          /\ cb.pay = SubSeq(f.pay, 1, Len(cb.pay))
+
+\* one of the callbacks fired in this call returned an error of its own
+Refused(cbs) == \E i \in 1..Len(cbs) : cbs[i].payErr = "refused"
+
+RECURSIVE EatenBy(_)
+EatenBy(cbs) == IF cbs = <<>> THEN 0
+                ELSE (IF Head(cbs).kind = "continuation" THEN Len(Head(cbs).pay) ELSE 0) + EatenBy(Tail(cbs))
 
 \* (entry points without callbacks - NextReader - silently drop intermediate control frames, as documented)
 CbsOk(m, fi2, cbs) ==
@@ -199,21 +214,24 @@ StepNextFrame(m, e) ==
       LET f == F[j]
           inter == IsControl(f.op) /\ m.fr[j]      \* intermediate control frame
           cutIn == inter /\ AtCut(m, P) /\ m.sc.cut < f.pe
+          \* payload bytes of a continuation frame that the OnContinuation callback took for itself
+          eaten == IF f.op = OpCont /\ Len(e.cbs) > 0 THEN Len(e.cbs[Len(e.cbs)].pay) ELSE 0
       IN
       [m EXCEPT
         !.bad = FirstBad(<<
            <<fi2 = j, "NextFrame consumed more than one frame header">>,
            <<HdrEq(e.hdr, SeenHdr(m.sc, f)), "NextFrame returned a header that is not the next frame's">>,
            <<CbsOk(m, fi2, e.cbs), "callbacks do not match the frames consumed (order, header or payload)">>,
-           <<cutIn \/ e.err = "nil", "NextFrame failed on a valid frame">>,
-           <<~inter => P = f.ps, "NextFrame read payload bytes">>,
+           <<cutIn \/ e.err = "nil" \/ (e.err = "callback" /\ Refused(e.cbs)), "NextFrame failed on a valid frame">>,
+           <<Refused(e.cbs) => e.err = "callback", "the callback's error did not reach the caller">>,
+           <<~inter => P = f.ps + eaten, "NextFrame read payload bytes">>,
            <<inter /\ ~cutIn => P = f.pe, "intermediate control frame not drained">> >>),
         !.fi = fi2, !.pulled = P,
         !.dead = cutIn /\ e.err # "nil",
         \* a data or top-level control frame opens a message; a continuation keeps it
         !.inmsg = IF inter THEN m.inmsg ELSE TRUE,
         !.first = IF inter \/ f.op = OpCont THEN m.first ELSE j,
-        !.del = IF inter \/ f.op = OpCont THEN m.del ELSE 0,
+        !.del = IF inter THEN m.del ELSE IF f.op = OpCont THEN m.del + eaten ELSE 0,
         !.comp = IF IsData(f.op) /\ f.op # OpCont THEN (m.sc.ext /\ Rsv1(f.rsv)) ELSE m.comp]
 
 StepRead(m, e) ==
@@ -229,11 +247,14 @@ StepRead(m, e) ==
             <<e.err = "no_frame_advance" /\ e.n = 0 /\ P = m.pulled, "Read without NextFrame must fail with ErrNoFrameAdvance">> >>)]
     ELSE
       LET hit == HitOffending(m, fi2)
+          \* bytes an OnContinuation callback fired inside this Read took for itself: they come before
+          \* whatever this call delivers
+          del0 == m.del + EatenBy(e.cbs)
           upto == IF hit THEN m.badIdx - 1 ELSE fi2
           avail == MsgBytesUpTo(m, upto)          \* bytes of the message in frames consumed so far
           last == MsgLastIdx(m)
           allPulled == last <= upto /\ P >= F[last].pe       \* every byte of the message has been received
-          complete == allPulled /\ m.del + e.n = avail
+          complete == allPulled /\ del0 + e.n = avail
           payload == MsgPayload(m)
           valid == ~Utf8Checked(m) \/ WellFormed(payload)
           seen == PulledData(F, m.first, IF last <= Len(F) THEN last ELSE Len(F), P)
@@ -243,21 +264,23 @@ StepRead(m, e) ==
       [m EXCEPT
         !.bad = FirstBad(<<
            <<e.n <= e.k, "n > len(p)">>,
-           <<m.del + e.n <= avail, "delivered bytes the reader has not received yet / beyond the offending frame">>,
-           <<DataOk(m, e), "delivered bytes are not the next bytes of the message">>,
+           <<del0 + e.n <= avail, "delivered bytes the reader has not received yet / beyond the offending frame">>,
+           <<DataOk([m EXCEPT !.del = del0], e), "delivered bytes are not the next bytes of the message">>,
            <<CbsOk(m, upto, e.cbs), "callbacks do not match the frames consumed (order, header or payload)">>,
            <<hit => fi2 = m.badIdx /\ RefusalOk(m, e) /\ NoPayloadOfOffending(m, P),
              "offending frame not refused at once (rule, or payload read)">>,
            <<e.err = "eof" => complete /\ valid, "end of message reported for an incomplete or invalid message">>,
            <<e.err = "invalid_utf8" => hopeless, "valid (or still completable) text reported as invalid UTF-8">>,
-           <<allPulled /\ ~valid /\ m.del + e.n = avail => e.err # "nil" /\ e.err # "eof", "invalid UTF-8 text message delivered as complete">>,
+           <<allPulled /\ ~valid /\ del0 + e.n = avail => e.err # "nil" /\ e.err # "eof", "invalid UTF-8 text message delivered as complete">>,
            <<e.err \in {"protocol", "too_large"} => hit, "protocol error without an offending frame">>,
            <<HardErr(e) => cutHit, "transport error without a cut">>,
-           <<e.err \in {"nil", "eof", "invalid_utf8", "protocol", "too_large", "unexpected_eof", "transport"}, "unexpected error class">> >>),
+           <<e.err \in {"nil", "eof", "invalid_utf8", "protocol", "too_large", "unexpected_eof", "transport", "callback"}, "unexpected error class">>,
+           <<(e.err = "callback") = Refused(e.cbs), "an error of the application's callback is reported exactly when it returned one">> >>),
         !.fi = IF hit THEN m.badIdx ELSE fi2, !.pulled = P,
-        !.del = m.del + e.n,
+        !.del = del0 + e.n,
         !.inmsg = ~(e.err = "eof"),
-        !.dead = e.err \notin {"nil", "eof"}]
+        \* (after its own callback's error the application may go on - e.g. Discard the message)
+        !.dead = e.err \notin {"nil", "eof", "callback"}]
 
 StepDiscard(m, e) ==
     LET F == m.sc.frames
